@@ -33,7 +33,11 @@ class FakeContext:
         path = "/" + "/".join(uri)
         self.requests.append((path, bytes(msg.payload)))
         code, payload = self.rig.acc.post(path, bytes(msg.payload))
-        self.rig.loop.call_soon(lambda: fut.done() or fut.set_result(_Resp(code, payload)))
+        done = lambda: fut.done() or fut.set_result(_Resp(code, payload))  # noqa: E731
+        if getattr(self.rig, "hold", False):
+            self.rig.held.append(done)  # the answer is on its way: the harness decides when it arrives
+        else:
+            self.rig.loop.call_soon(done)
         return _Req(fut)
 
     async def shutdown(self):
@@ -54,6 +58,7 @@ class CoapRig:
         _random.seed(f"coaprig|{seed}")
         self.acc = coapacc.CoapAccessory(seed, db=db)
         self.contexts = []
+        self.hold, self.held = False, []
         rig = self
 
         class Ctx:
